@@ -492,7 +492,7 @@ int32_t psEccParsePrivKey(psPool_t *pool,
         goto L_FAIL;
     }
 
-    if (*buf == (ASN_CONTEXT_SPECIFIC | ASN_CONSTRUCTED | 1))
+    if (buf < end && *buf == (ASN_CONTEXT_SPECIFIC | ASN_CONSTRUCTED | 1))
     {
         /* optional public key is present */
         buf++;
